@@ -54,6 +54,34 @@ def cone(obs, edited):
     return in_cone
 
 
+def dynamic_cone(pre, post, edited):
+    """Steps that may execute given which steps actually executed: consumers of an edited file or
+    of a changed glob match, and then only consumers of outputs of steps that did execute, and
+    steps declared by steps that did execute."""
+    steps = {s for s, st in post.db_steps.items()} | {s for s in pre.db_steps}
+    executed = set(post.started)
+    inputs = {s: {p for p, _ in post.db_inputs.get(s, [])} | {p for p, _ in pre.db_inputs.get(s, [])} for s in steps}
+    outputs = {s: set(post.db_outputs.get(s, [])) | set(pre.db_outputs.get(s, [])) for s in steps}
+    valid = set()
+    for s in steps:
+        if inputs[s] & edited:
+            valid.add(s)
+        for rx in pre.db_nglobs.get(s, []):
+            if any(re.compile(rx).fullmatch(p) for p in edited):
+                valid.add(s)
+    changed = True
+    while changed:
+        changed = False
+        for s in steps - valid:
+            for e in valid & executed:
+                creator = (post.db_creator.get(f"step:{s}") or pre.db_creator.get(f"step:{s}", "")).removeprefix("step:")
+                if inputs[s] & outputs[e] or creator == e:
+                    valid.add(s)
+                    changed = True
+                    break
+    return valid
+
+
 def plain_sources(files):
     return sorted(p for p, c in files.items() if not p.endswith("/") and c is not None
                   and not c.startswith(SHEBANG))
@@ -133,6 +161,10 @@ def run_job(spec):
                     acc.transitions += post.nev
                     allowed = cone(pre, set(subset))
                     extra = [s for s in post.started if s not in allowed]
+                    # the cone is dynamic: a consumer of a step that was checked and SKIPPED (its
+                    # output did not change) is outside it ("an output of a re-executed step")
+                    extra += [s for s in post.started if s not in extra
+                              and s not in dynamic_cone(pre, post, set(subset))]
                     if kind == "touch" and post.started:
                         extra = post.started
                     if post.started:
